@@ -20,6 +20,9 @@ fn main() {
     // fuzz-support subcommands: <ID> corpus <dir> | artifact <file> | classify <dir>
     if matches!(args[2].as_str(), "corpus" | "artifact" | "classify") {
         runner::install_panic_hook();
+        if id == "C04" || id == "C06" {
+            nexrad_verif::hang::spawn_monitor(if id == "C04" { "C04" } else { "C06" }, "thorough", 0, false);
+        }
         let seed: u64 = std::env::var("VERIF_SEED").ok().and_then(|s| s.trim().parse::<i128>().ok()).map(|v| v as u64).unwrap_or(0);
         let path = std::path::PathBuf::from(args.get(3).cloned().unwrap_or_default());
         std::process::exit(props::fuzz_support::run(&id, &args[2], &path, seed));
@@ -76,6 +79,9 @@ fn main() {
         std::process::exit(2);
     });
 
+    if entry.id == "C04" || entry.id == "C06" {
+        nexrad_verif::hang::spawn_monitor(entry.id, if tier == Tier::Quick { "quick" } else { "thorough" }, seed, replay.is_none());
+    }
     // the second (nodebug) build explores different cases than the main build: derived seed
     let seed = if runner::profile_tag().is_some() { seed ^ 0x5DEE_CE66_D000_0001 } else { seed };
     let ctx = Ctx {
